@@ -425,7 +425,7 @@ func finishCheck(opts CheckOpts, CS *ContractSet, reports []*FuncReport, assumed
 	var solverMS int64
 	byBackend := map[string]int{}
 	var deadReports, infeasible []string
-	replayDir := filepath.Join("/verif/replays", opts.Prop)
+	replayDir := filepath.Join(outRoot, "replays", opts.Prop)
 	_ = os.RemoveAll(replayDir)
 	for _, fr := range reports {
 		funcs = append(funcs, fr.Key+" (mode "+fr.Mode+")")
@@ -537,8 +537,8 @@ func finishCheck(opts CheckOpts, CS *ContractSet, reports []*FuncReport, assumed
 		"assumptions": append(sortedKeys(assumed), standingAssumptions()...),
 	}
 	b, _ := json.MarshalIndent(ev, "", " ")
-	_ = os.MkdirAll("/verif/evidence", 0o755)
-	_ = os.WriteFile(filepath.Join("/verif/evidence", opts.Prop+".json"), b, 0o644)
+	_ = os.MkdirAll(filepath.Join(outRoot, "evidence"), 0o755)
+	_ = os.WriteFile(filepath.Join(outRoot, "evidence", opts.Prop+".json"), b, 0o644)
 	fmt.Printf("property %s: %d obligations, %d discharged, %d known-finding, %d violations, %.1fs\n", opts.Prop, total, discharged, len(knownSeenObls(reports, findings, opts.Prop)), violations, wall)
 	if toolErr {
 		return 2
